@@ -269,6 +269,8 @@ func lastOr[T any](xs []T, zero T) T {
 var (
 	assetRowRe = regexp.MustCompile(`(?s)<tr>\s*<td><a href="[^"]*">([^<]*)</a></td>(.*?)</tr>`)
 	indexRowRe = regexp.MustCompile(`(?s)<tr>\s*<td><a href="[^"]*">([^<]*)</a></td>\s*<td>([^<]*)</td>(.*?)</tr>`)
+	cellRe     = regexp.MustCompile(`(?s)<td>(.*?)</td>`)
+	tagRe      = regexp.MustCompile(`(?s)<[^>]*>`)
 	pctRe      = regexp.MustCompile(`(-?[0-9.]+(?:e[+-]?[0-9]+)?|NaN|[+-]Inf)%`)
 )
 
@@ -427,6 +429,36 @@ func c13Run(cc *run.Case, w *btWorld, workers int, raceOnly bool) (string, bool)
 					return fail(fmt.Sprintf("%s.html shows outcome %s%% for %s, direct evaluation gives %s%%", a, m[1], sn, want))
 				}
 				_ = shown
+				// the other cells of the row: last recommendation, how many periods it has
+				// stood, number of recommended Buy/Sell actions - all by direct evaluation
+				acts := w.direct(a, si).Actions
+				if len(acts) > 0 {
+					lastA := acts[len(acts)-1]
+					since, tx := 0, 0
+					for k := len(acts) - 1; k > 0 && acts[k-1] == lastA; k-- {
+						since++
+					}
+					for _, x := range acts {
+						if x != strategy.Hold {
+							tx++
+						}
+					}
+					cells := cellRe.FindAllStringSubmatch(row[2], -1)
+					tag := map[strategy.Action]string{strategy.Buy: "Buy", strategy.Sell: "Sell", strategy.Hold: "Hold"}[lastA]
+					if len(cells) != 4 {
+						return fail(fmt.Sprintf("%s.html row %d (%s) has %d cells after the name, expected action, since, outcome, transactions", a, ri, sn, len(cells)))
+					}
+					if got := strings.TrimSpace(tagRe.ReplaceAllString(cells[0][1], "")); got != tag {
+						return fail(fmt.Sprintf("%s.html shows the action %q for %s, the last action of a direct evaluation is %s", a, got, sn, tag))
+					}
+					if got := strings.TrimSpace(cells[1][1]); got != strconv.Itoa(since) {
+						return fail(fmt.Sprintf("%s.html shows since = %s for %s, by direct evaluation the last recommendation (%s) has stood for %d period(s)", a, got, sn, tag, since))
+					}
+					if got := strings.TrimSpace(cells[3][1]); got != strconv.Itoa(tx) {
+						return fail(fmt.Sprintf("%s.html shows %s transactions for %s, a direct evaluation recommends Buy or Sell %d time(s)", a, got, sn, tx))
+					}
+					cc.Count("html_cells_checked", 3)
+				}
 				// rankings list results in non-increasing outcome order
 				if exp[si] > prev+1e-9*math.Max(1, math.Abs(prev)) {
 					return fail(fmt.Sprintf("%s.html is not in non-increasing outcome order: row %d (%s, %.6f%%) comes after a row with %.6f%%", a, ri, sn, exp[si], prev))
